@@ -20,7 +20,9 @@ def run(ctx):
         more_b = [("chainraw", 6)]
     else:
         fams_laws = ["PairMedium", "PairExplicit", "PairThorough", "PairZero", "PairOrderThorough", "PairLimitThorough", "BigPair"]
-        fams_laws.append("ChainRawThorough")
+        # the larger universe ChainRawThorough of MC_SnapChain.tla is not wired in: it was never measured
+        # (machine load during the extension round); the thorough tier runs the quick universe and more random chains
+        fams_laws.append("ChainRawQuick")
         fams_a = list(fams_laws)
         nb, seeds, par = 400, 4, 8
         more_b = [("chainraw", 40)]
